@@ -267,7 +267,42 @@ def derives_from(g, op, locals_, depth=0):
             return True
         if rv["k"] in ("Ref", "CopyForDeref", "RawPtr") and derives_from(g, {"k": "Copy", "place": rv["place"]}, locals_, depth + 1):
             return True
+        # a closure / tuple / struct that captures the value carries it along (`iter.for_each(|x| x.hash(state))`)
+        if rv["k"] == "Aggregate" and any(derives_from(g, o, locals_, depth + 1) for o in rv["ops"]):
+            return True
     return False
+
+
+def captured_in_aggregate(g, op, locals_, depth=0):
+    """the operand is (a copy of) a closure / aggregate holding one of the locals rather than the local itself"""
+    if op["k"] not in ("Copy", "Move") or depth > 8:
+        return False
+    for d in g.defs.get(op["place"]["local"], []):
+        rv = d[2]
+        if rv["k"] == "Aggregate" and any(derives_from(g, o, locals_, depth + 1) for o in rv["ops"]):
+            return True
+        if rv["k"] in ("Use", "Cast") and captured_in_aggregate(g, rv["op"], locals_, depth + 1):
+            return True
+        if rv["k"] in ("Ref", "CopyForDeref", "RawPtr") and captured_in_aggregate(g, {"k": "Copy", "place": rv["place"]}, locals_, depth + 1):
+            return True
+    return False
+
+
+HASH_ITER_MARKS = ("hash_set", "hash_map", "hash::set", "hash::map", "HashSet", "HashMap")
+
+
+def internal_iteration_sites(b, g, sinks):
+    out = []
+    for bi, t in g.calls():
+        if b["blocks"][bi]["cleanup"]:
+            continue
+        has_sink = any(derives_from(g, a, set(sinks)) for a in t["args"])
+        has_hash_iter = any(a["k"] in ("Copy", "Move") and any(m in b["locals"][a["place"]["local"]]["ty"] for m in HASH_ITER_MARKS)
+                            and ("Iter" in b["locals"][a["place"]["local"]]["ty"] or "iter" in b["locals"][a["place"]["local"]]["ty"])
+                            for a in t["args"])
+        if has_sink and has_hash_iter:
+            out.append((bi, t))
+    return out
 
 
 def unordered_loops(body):
@@ -310,6 +345,13 @@ def rule_H_ORDER(ctx):
                 t = b["blocks"][bi]["term"]
                 if t["k"] == "Call" and any(derives_from(g, a, set(sinks)) for a in t["args"]):
                     bad.append("%s at line %s" % (mir.callee_name(t), t["line"]))
+        # internal iteration: one call gets both a hash-set/map iterator (or adapter over one) and the sink / a closure capturing it
+        for bi, t in internal_iteration_sites(b, g, sinks):
+            if True:
+                cal = mir.callee_path(t)
+                if cal in f.mir and sink_params(f.mir[cal]) and combiner_check(ctx, cal)[0]:
+                    continue        # handed to a function proved to be an unordered combiner (H-COMB)
+                bad.append("%s at line %s consumes a hash-set iterator together with the sink" % (mir.callee_name(t), t["line"]))
         ctx.ob("H-ORDER", b["name"], not bad, "the hasher sink is fed inside a hash-set iteration: %s" % bad, "%s:%s" % (b["span"]["file"], b["span"]["line"]))
     ctx.floor("functions with a hasher sink reachable from Term::hash", n, 2)
     return reach
@@ -342,6 +384,8 @@ def combiner_check(ctx, path, depth=0):
     for bi, t in sink_calls:
         if bi in in_loop:
             return False, "sink written inside a loop (%s at line %s)" % (mir.callee_name(t), t["line"])
+        if any(captured_in_aggregate(g, a, sinks) for a in t["args"]):
+            return False, "the sink is captured by a closure / aggregate handed to %s at line %s: the order in which it is fed is not visible" % (mir.callee_name(t), t["line"])
     for bi, t in sink_calls:
         nm = mir.callee_name(t)
         cal = mir.callee_path(t)
